@@ -6,6 +6,7 @@ package parser
 
 import (
 	"github.com/DDP-Projekt/Kompilierer/src/ast"
+	"github.com/DDP-Projekt/Kompilierer/src/ddperror"
 	"github.com/DDP-Projekt/Kompilierer/src/ddptypes"
 	"github.com/DDP-Projekt/Kompilierer/src/token"
 	rt "github.com/DDP-Projekt/Kompilierer/src/zzverif/rt"
@@ -91,4 +92,53 @@ func VerifC15GenericTypeScope() {
 	default:
 		rt.Assert(!ok, "an undeclared type name stays undeclared")
 	}
+}
+
+// VerifC15VerdictAgrees: a program that calls a generic function is accepted exactly when the
+// program with the textually specialised function is accepted (whole frontend on both; body
+// shape and type argument chosen by symbolic selectors).
+func VerifC15VerdictAgrees() {
+	types := []struct{ name, ret, article, value string }{
+		{"Zahl", "eine Zahl", "Die", "2"},
+		{"Kommazahl", "eine Kommazahl", "Die", "2,5"},
+		{"Text", "einen Text", "Der", "\"s\""},
+		{"Wahrheitswert", "einen Wahrheitswert", "Der", "wahr"},
+		{"Zahlen Liste", "eine Zahlen Liste", "Die", "zl"},
+	}
+	t := types[rt.Choose("typeArgument", len(types))]
+	var body string
+	switch rt.Choose("body", 8) {
+	case 0:
+		body = "\tGib g zurück.\n"
+	case 1:
+		body = "\t...\n"
+	case 2:
+		body = "\tWenn a gleich 0 ist, dann:\n\t\tGib g zurück.\n"
+	case 3:
+		body = "\tDie Zahl q ist g plus 1.\n\tGib g zurück.\n"
+	case 4:
+		body = "\tGib g verkettet mit g zurück.\n"
+	case 5:
+		body = "\tDie Variable v ist g.\n\tGib g zurück.\n"
+	case 6:
+		body = "\tWenn a gleich 0 ist, dann:\n\t\t...\n\tGib g zurück.\n"
+	case 7:
+		body = "\tWenn g gleich g ist, dann:\n\t\tGib g zurück.\n\t...\n"
+	}
+	tail := "Und kann so benutzt werden:\n\t\"f <a> <g>\"\n\nDie Zahlen Liste zl ist eine Liste, die aus 1, 2 besteht.\n" + t.article + " " + t.name + " r ist f 1 " + t.value + ".\n"
+	generic := "Die generische Funktion f mit den Parametern a und g vom Typ Zahl und T, gibt ein T zurück, macht:\n" + body + tail
+	special := "Die Funktion f mit den Parametern a und g vom Typ Zahl und " + t.name + ", gibt " + t.ret + " zurück, macht:\n" + body + tail
+	count := func(src string) (int, bool) {
+		errors := 0
+		mod, err := Parse(Options{FileName: "x.ddp", Source: []byte(src), ErrorHandler: func(e ddperror.Error) {
+			if e.Level == ddperror.LEVEL_ERROR {
+				errors++
+			}
+		}})
+		return errors, err == nil && mod != nil && mod.Ast != nil
+	}
+	eg, okg := count(generic)
+	es, oks := count(special)
+	rt.Assert(okg && oks, "the frontend returns a module")
+	rt.Assert((eg > 0) == (es > 0), "a call of a generic function is accepted exactly when the call of its specialisation is")
 }
